@@ -18,6 +18,7 @@ def gen(rng):
     cfg["dotenv_load"] = rng.random() < 0.6
     cfg["dotenv_file"] = {"D1": "dot1", "D2": "dot2", "COLL": "dotcoll", "E2": "dotE2"}
     cfg["in_module"] = rng.random() < 0.45
+    cfg["script"] = rng.random() < 0.3        # the recipe is a shebang recipe: another code path starts the child
 
     def module(is_root):
         m = {"set_export": rng.random() < 0.35, "vars": [], "unexports": []}
@@ -70,6 +71,8 @@ def module_text(cfg, m, is_root):
         ps = cfg["params"]
         t += "\nr %s%s %s%s %sP3=`[B-def]`:\n" % ("$" if ps[0]["export"] else "", ps[0]["name"], "$" if ps[1]["export"] else "",
                                                   ps[1]["name"], "$" if ps[2]["export"] else "")
+        if cfg.get("script"):
+            t += "  #!%s\n" % C.VSH
         t += "  [T-body] {{`[B-int]`}} {{shell('[B-shell]')}}\n"
     return t
 
@@ -98,6 +101,8 @@ def chains(cfg):
     }
     if cfg["in_module"]:
         out["[B-mod-root]"] = [consts, root]
+    # `just --command …`: a child of the root module's scope
+    out["[CMD]"] = [consts, root, []]
     if cfg.get("k"):
         ks = [{"name": v["name"], "value": v["value"], "exported": v["export"], "constant": False} for v in cfg["k"]["vars"]]
         ks.append({"name": "bt", "value": "btk", "exported": False, "constant": False})
@@ -153,9 +158,15 @@ def run_cfg(cfg):
             argv = ["k::s"] + argv
         p = subprocess.run([C.JUST] + argv, cwd=d, env=env, stdin=subprocess.DEVNULL, stdout=subprocess.PIPE,
                            stderr=subprocess.PIPE)
+        p2 = subprocess.run([C.JUST, "--command", C.VSH, "-c", "[CMD]"], cwd=d, env=env, stdin=subprocess.DEVNULL, stdout=subprocess.PIPE,
+                            stderr=subprocess.PIPE)
         sites = {}
         for e in C.read_vsh_log(logp):
-            key = e["argv"][2].split(" ")[0]
+            if e["script"] is not None:
+                text = ([l for l in e["script"].split("\n") if l.startswith("[T-")] or [""])[0]
+            else:
+                text = e["argv"][2] if len(e["argv"]) > 2 else ""
+            key = text.split(" ")[0]
             sites.setdefault(key, e["env"])
         return {"rc": p.returncode, "sites": sites, "stderr": p.stderr.decode("utf-8", "replace")[-500:], "given_env": env, "argv": argv}
 
@@ -174,13 +185,13 @@ def run(report):
         owner = cfg["m"] if cfg["in_module"] else cfg["root"]
         dot = [[k, v] for k, v in cfg["dotenv_file"].items() if k not in cfg["base"]] if cfg["dotenv_load"] else []
         for site, chain in chains(cfg).items():
-            own = cfg["root"] if site == "[B-mod-root]" else (cfg["k"] if site == "[T-k]" else owner)
+            own = cfg["root"] if site in ("[B-mod-root]", "[CMD]") else (cfg["k"] if site == "[T-k]" else owner)
             reqs.append({"op": "childenv", "base": [[k, v] for k, v in cfg["base"].items()], "dotenv": dot,
                          "setExport": own["set_export"], "unexports": own["unexports"], "chain": chain, "names": NAMES})
             index.append((ci, site, chain, own))
     model = drv.pbatch(reqs, chunk=2000)
     stats = {"configurations": n, "sites_compared": 0, "in_submodule": sum(1 for c in cfgs if c["in_module"]),
-             "set_export": 0, "with_unexports": 0, "dotenv_loaded": sum(1 for c in cfgs if c["dotenv_load"]),
+             "set_export": 0, "with_unexports": 0, "dotenv_loaded": sum(1 for c in cfgs if c["dotenv_load"]), "shebang_recipes": sum(1 for c in cfgs if c.get("script")),
              "exported_values_seen": 0, "unexported_removed": 0}
     distinct = set()
     samples = []
@@ -231,7 +242,7 @@ def run(report):
     report.coverage.update({
         "evaluations": stats["sites_compared"],
         "distinct_nontrivial": len(distinct),
-        "rule": "random configurations: exported/plain assignments over colliding names in root and submodule, `set export`, unexport names, $/plain parameters shadowing variables, dotenv entries colliding with the environment; the child environment is dumped at 5 sites (module-level backtick, parameter-default backtick, recipe line, interpolation backtick, shell()); distinct = distinct (site, environment restricted to the candidate names)",
+        "rule": "random configurations: exported/plain assignments over colliding names in root and submodule, `set export`, unexport names, $/plain parameters shadowing variables, dotenv entries colliding with the environment; the child environment is dumped at 6 sites (module-level backtick, parameter-default backtick, recipe line or shebang script, interpolation backtick, shell(), --command); distinct = distinct (site, environment restricted to the candidate names)",
         "samples": samples,
         "traces_validated_against_impl": stats["sites_compared"],
         "stats": stats,
